@@ -357,6 +357,8 @@ def _tie_a_one(script):
 
 KERN_THEOREMS = {'kernel_dense_eq', 'kernel_sparse_eq', 'kernel_dispatch_eq'}
 
+LAY_THEOREMS = {'lay_complement_eq', 'lay_vee_eq', 'lay_dual_eq', 'lay_involutions_eq'}
+
 TRANSLATORS = [   # (script, theorems it generates (None = everything else), modules its output imports)
     ('py2lean.py', None, ['Model', 'Proofs.Rev', 'Proofs.Invol']),
     ('mv2lean.py', MV_THEOREMS, ['Proofs.Conf2', 'Proofs.CgaObj', 'Proofs.Classify']),
@@ -364,6 +366,7 @@ TRANSLATORS = [   # (script, theorems it generates (None = everything else), mod
     ('closed2lean.py', CLOSED_THEOREMS, ['Proofs.Hitzer', 'Proofs.Hitzer4', 'Proofs.Hitzer5']),
     ('methods2lean.py', METH_THEOREMS, ['Proofs.Invol', 'Proofs.Graded', 'Proofs.Blade']),
     ('kernels2lean.py', KERN_THEOREMS, ['Model']),
+    ('layout2lean.py', LAY_THEOREMS, ['Model']),
 ]
 
 
